@@ -339,3 +339,45 @@ func contCanon(c meta.HasDataDefinitions, x *Tree, ok bool, o CanonOpts) string 
 	}
 	return x.Canon(c.DataDefinitions(), o)
 }
+
+// StripDefaults removes from got every leaf that want leaves unset and whose
+// value equals the schema default: reads may report the default of an unset leaf.
+func StripDefaults(defs []meta.Definition, want, got *Tree) {
+	for _, d := range FlatDefs(defs) {
+		id := d.Ident()
+		switch x := d.(type) {
+		case *meta.List:
+			wl, wok := want.Lists[id]
+			gl, gok := got.Lists[id]
+			if !wok || !gok {
+				continue
+			}
+			wantBy := map[string]*Tree{}
+			for _, e := range wl.Entries {
+				wantBy[KeyOf(x, e)] = e
+			}
+			for _, e := range gl.Entries {
+				if we, ok := wantBy[KeyOf(x, e)]; ok {
+					StripDefaults(x.DataDefinitions(), we, e)
+				}
+			}
+		case meta.HasDataDefinitions:
+			wc, wok := want.Conts[id]
+			gc, gok := got.Conts[id]
+			if wok && gok {
+				StripDefaults(x.DataDefinitions(), wc, gc)
+			}
+		case meta.Leafable:
+			if _, set := want.Leaves[id]; set {
+				continue
+			}
+			g, ok := got.Leaves[id]
+			if !ok || !x.HasDefault() {
+				continue
+			}
+			if dv := DefaultVal(x); dv != nil && CanonVal(dv) == g.Canon {
+				delete(got.Leaves, id)
+			}
+		}
+	}
+}
